@@ -278,6 +278,22 @@ impl<'a, 'ast> Visit<'ast> for Auto<'a> {
 
     fn visit_expr_call(&mut self, c: &'ast syn::ExprCall) {
         if let syn::Expr::Path(p) = &*c.func {
+            // R17: size_of::<primitive>() -> literal (language fact; Verus cannot call size_of in exec consts)
+            if let Some(last) = p.path.segments.last() {
+                if last.ident == "size_of" && c.args.is_empty() {
+                    if let syn::PathArguments::AngleBracketed(ab) = &last.arguments {
+                        if ab.args.len() == 1 {
+                            let t = norm(self.src.slice(self.src.range(&ab.args[0])));
+                            let lit = match t.as_str() { "u8" | "i8" => Some("1usize"), "u16" | "i16" => Some("2usize"), "u32" | "i32" => Some("4usize"), "u64" | "i64" | "usize" | "isize" => Some("8usize"), "u128" | "i128" => Some("16usize"), _ => None };
+                            if let Some(l) = lit {
+                                let r = self.src.range(c);
+                                self.push(r, l, "R17-size-of");
+                                return;
+                            }
+                        }
+                    }
+                }
+            }
             let segs: Vec<String> = p.path.segments.iter().map(|s| s.ident.to_string()).collect();
             if p.qself.is_none() && segs.len() >= 3 && segs[segs.len() - 3] == "io" && segs[segs.len() - 2] == "Error" && segs[segs.len() - 1] == "new" {
                 // R5: std::io::Error::new(kind, msg) -> vx_io_error_new(kind, msg) (bound `dyn Error + Send + Sync` unsupported)
@@ -724,6 +740,12 @@ fn fn_edits(src: &Src, take: &Take, sig: &syn::Signature, block: &syn::Block, fn
                     }
                 }
             }
+            Sub::LoopIter(n, text) => {
+                let li = idx.loops.get(n - 1).ok_or(format!("{}: loop #{} not found", fname, n))?;
+                let f = li.for_parts.ok_or(format!("{}: loop #{} is not a for loop", fname, n))?;
+                let orig = src.text[f.3..f.4].to_string();
+                edits.push(Edit { start: f.3, end: f.4, text: text.replace('$', &orig), rule: "R11b-loop-iter", label: None, prio: 0 });
+            }
             Sub::ForToLoop(n, text) => {
                 // R11: `for PAT in EXPR { B }` -> `{ let mut vx_it = EXPR; loop <inv> { let PAT = <text>; B } }`
                 let li = idx.loops.get(n - 1).ok_or(format!("{}: loop #{} not found", fname, n))?;
@@ -756,7 +778,17 @@ fn do_extract(args: &BTreeMap<String, String>) -> Result<(), String> {
     let out_path = args.get("out").ok_or("--out")?;
     let map_path = args.get("map").ok_or("--map")?;
     let spec_text = std::fs::read_to_string(spec_path).map_err(|e| format!("{spec_path}: {e}"))?;
-    let dirs = spec::parse(&spec_text, cdir)?;
+    let mut dirs = spec::parse(&spec_text, cdir)?;
+    // --extra <file>: additional directives (auto-resolved dependencies) inserted before the final include
+    if let Some(extra) = args.get("extra") {
+        if let Ok(t) = std::fs::read_to_string(extra) {
+            let ex = spec::parse(&t, cdir)?;
+            let pos = dirs.iter().rposition(|d| matches!(d, Dir::Include(p) if p.ends_with("tail.rs"))).unwrap_or(dirs.len());
+            for (k, d) in ex.into_iter().enumerate() {
+                dirs.insert(pos + k, d);
+            }
+        }
+    }
     let mut srcs: BTreeMap<String, Src> = BTreeMap::new();
     let mut cur_src: Option<String> = None;
     let mut em = Emitter { lines: vec![], rules: BTreeMap::new(), functions: vec![], trusted: vec![], missing_anchors: vec![], unknown_calls: vec![] };
@@ -925,7 +957,7 @@ fn do_extract(args: &BTreeMap<String, String>) -> Result<(), String> {
                     *em.rules.entry("L2-skeleton".to_string()).or_insert(0) += 1;
                     continue;
                 }
-                let mut auto = Auto { src, edits: vec![], errors: vec![], keep_derives_off: take.drop_derives.clone(), method_rewrites: method_rewrites.clone(), path_rewrites: path_rewrites.clone() };
+                let mut auto = Auto { src, edits: vec![], errors: vec![], keep_derives_off: take.drop_derives.clone(), method_rewrites: method_rewrites.clone(), path_rewrites: { let mut v = take.path_rewrites.clone(); v.extend(path_rewrites.clone()); v } };
                 let mut edits: Vec<Edit> = vec![];
                 let (range, header, footer): ((usize, usize), String, String);
                 match found {
